@@ -5,6 +5,7 @@
 //! trusted: assume_specification for core::cmp::max / core::cmp::min (their std definitions); foreign payload types (Txid, BlockHash, Transaction, HTLCSource, PaymentHash, PaymentPreimage, Amount, OutPoint, TxOut) are opaque structs; SpendableOutputDescriptor / DelayedPaymentOutputDescriptor are skeletons keeping the fields the code reads
 //! trusted: u11b: ChannelMonitorImpl is a self skeleton (R5) with the fields blocks_disconnected touches; OnchainTxHandler::blocks_disconnected/transaction_unconfirmed, cancel_prev_commitment_claims, closure_conf_target, queue_latest_holder_commitment_txn_for_broadcast are external_body with the frame "does not touch best_block / onchain_events_awaiting_threshold_conf" assumed (they only read best_block); Txid equality is spec equality; R6e for Vec::retain
 //! trusted: best_block_updated: BlockLocator::{new, update_for_new_tip} external_body (set hash and height); Header::block_hash external_body; block_confirmed external_body with the frame `best_block untouched` assumed; BlockHash is an opaque identity (u64 stand-in)
+//! trusted: handler_reorg: OnchainTxHandler self skeleton {awaiting events, ghost rolled_back_to}; blocks_disconnected is an external_body callee recording its argument in the ghost field (its own per-entry and per-outpoint tests are extracted as two deep R15 slices: conditions captured verbatim); the ClaimId in tracked outpoints is a u64 stand-in; regeneration of claims after a rollback is dropped and not claimed
 //! assume: 1 <= height <= 2^31-1 for entries (height == 0 with csv == 0 would underflow `height + csv - 1`; LDK never records height 0)
 use vstd::prelude::*;
 verus! {
@@ -352,6 +353,71 @@ impl ChannelMonitorImpl {
     if entry.height >= removed_height {
 //@with
     if entry.height > removed_height {
+//@end
+}
+}
+
+// ---------------- claim tracking: unconfirming a transaction rolls the claim handler back to just below its block ----------------
+mod handler_reorg {
+use super::*;
+use super::onchaintx::*;
+use super::reorg::{BroadcasterInterface, FeeEstimator, Logger, LowerBoundedFeeEstimator, ConfirmationTarget};
+pub struct Script {}
+// R5: self skeleton; `rolled_back_to` is a ghost record of the height blocks_disconnected was last asked to roll back to
+pub struct OnchainTxHandler { pub onchain_events_awaiting_threshold_conf: Vec<OnchainEventEntry>, pub rolled_back_to: Ghost<Option<u32>> }
+impl OnchainTxHandler {
+    #[verifier::external_body]
+    pub fn blocks_disconnected<B: BroadcasterInterface, F: FeeEstimator, L: Logger>(&mut self, new_best_height: u32, broadcaster: &B, conf_target: ConfirmationTarget,
+        destination_script: &Script, fee_estimator: &LowerBoundedFeeEstimator<F>, logger: &L)
+        ensures final(self).rolled_back_to@ == Some(new_best_height)
+    { unimplemented!() }
+//@extract lightning/src/chain/onchaintx.rs :: impl OnchainTxHandler :: fn transaction_unconfirmed
+//@requires
+    forall|k: int| 0 <= k < old(self).onchain_events_awaiting_threshold_conf@.len() ==> (#[trigger] old(self).onchain_events_awaiting_threshold_conf@[k]).height >= 1,
+    old(self).rolled_back_to@ is None,
+//@ensures P C11 unconfirming-a-transaction-rolls-claim-tracking-back-to-just-below-the-block-that-confirmed-it-and-does-nothing-for-an-unknown-transaction
+    (forall|k: int| 0 <= k < old(self).onchain_events_awaiting_threshold_conf@.len() ==> (#[trigger] old(self).onchain_events_awaiting_threshold_conf@[k]).txid != *txid)
+        ==> final(self).rolled_back_to@ is None && final(self).onchain_events_awaiting_threshold_conf@ == old(self).onchain_events_awaiting_threshold_conf@,
+    (exists|k: int| 0 <= k < old(self).onchain_events_awaiting_threshold_conf@.len() && (#[trigger] old(self).onchain_events_awaiting_threshold_conf@[k]).txid == *txid)
+        ==> exists|k: int| 0 <= k < old(self).onchain_events_awaiting_threshold_conf@.len() && (#[trigger] old(self).onchain_events_awaiting_threshold_conf@[k]).txid == *txid
+            && final(self).rolled_back_to@ == Some((old(self).onchain_events_awaiting_threshold_conf@[k].height - 1) as u32),
+//@loop 1 iter=it
+    invariant_except_break height is None,
+        forall|j: int| 0 <= j < it.index@ ==> (#[trigger] self.onchain_events_awaiting_threshold_conf@[j]).txid != *txid,
+    invariant *self == *old(self), it.seq().len() == self.onchain_events_awaiting_threshold_conf@.len(),
+        forall|j: int| 0 <= j < it.seq().len() ==> *it.seq()[j] == self.onchain_events_awaiting_threshold_conf@[j],
+    ensures *self == *old(self),
+        height is None ==> forall|j: int| 0 <= j < self.onchain_events_awaiting_threshold_conf@.len() ==> (#[trigger] self.onchain_events_awaiting_threshold_conf@[j]).txid != *txid,
+        height is Some ==> exists|j: int| 0 <= j < self.onchain_events_awaiting_threshold_conf@.len() && (#[trigger] self.onchain_events_awaiting_threshold_conf@[j]).txid == *txid
+            && self.onchain_events_awaiting_threshold_conf@[j].height == height->Some_0,
+//@mutant rolls_back_to_the_transactions_own_height
+    height - 1, broadcaster,
+//@with
+    height, broadcaster,
+//@end
+
+// which awaiting events and which tracked outpoints a rollback to `new_best_height` retracts (two deep R15 slices of blocks_disconnected)
+//@extract lightning/src/chain/onchaintx.rs :: impl OnchainTxHandler :: fn blocks_disconnected
+//@slice R15
+    for entry in onchain_events_awaiting_threshold_conf { if $c:cond { $then:any } else { self.onchain_events_awaiting_threshold_conf.push(entry); } }
+//@with
+    fn event_is_retracted(entry: &OnchainEventEntry, new_best_height: u32) -> bool { $c }
+//@ret r
+//@ensures P C11 a-rollback-retracts-exactly-the-claim-events-confirmed-above-the-new-best-height
+    r == (entry.height > new_best_height),
+//@mutant event_at_the_new_best_height_retracted
+    entry.height > new_best_height
+//@with
+    entry.height >= new_best_height
+//@end
+//@extract lightning/src/chain/onchaintx.rs :: impl OnchainTxHandler :: fn blocks_disconnected
+//@slice R15
+    self.claimable_outpoints.retain(|_, ref v| if $c:cond { $then:any } else { true });
+//@with
+    fn tracked_outpoint_is_dropped(v: &(u64, u32), new_best_height: u32) -> bool { $c }
+//@ret r
+//@ensures P C11 a-rollback-forgets-exactly-the-outpoints-first-seen-spent-above-the-new-best-height
+    r == (v.1 > new_best_height),
 //@end
 }
 }
